@@ -38,23 +38,38 @@ FORBIDDEN = re.compile(
 # property table
 # ---------------------------------------------------------------------------------------
 # part kinds: "core" = vh-core + extracted SeqModel/Spec through ocaml/driver
+Q, T = 700, 30000
 PROPS = {
-    "C01": dict(theorems="Props/C01.v", parts=[
-        dict(kind="core", profile="C01", mask="out,keys,vals", preds="c01", quick=900, thorough=40000)]),
-    "C04": dict(theorems="Props/C04.v", parts=[
-        dict(kind="core", profile="C04", mask="keys,qset", preds="c04,wf", quick=900, thorough=40000)]),
-    "C05": dict(theorems="Props/C05.v", parts=[
-        dict(kind="core", profile="C05", mask="keys,qset,size", preds="c05,wf", quick=900, thorough=40000)]),
-    "C06": dict(theorems="Props/C06.v", parts=[
-        dict(kind="core", profile="C06", mask="out,keys,qset,born,stats", preds="c06", quick=900, thorough=40000)]),
-    "C07_pending": dict(theorems="Props/C07.v", parts=[
-        dict(kind="core", profile="C07", mask="keys,queue", preds="c07", quick=900, thorough=40000)]),
-    "C08_pending": dict(theorems="Props/C08.v", parts=[
-        dict(kind="core", profile="C08", mask="keys,queue,freq", preds="c08", quick=900, thorough=40000)]),
-    "C15": dict(theorems="Props/C15.v", parts=[
-        dict(kind="core", profile="C15", mask="out,stats", preds="c15", quick=900, thorough=40000)]),
-    "C16_pending": dict(theorems="Props/C16.v", parts=[
-        dict(kind="core", profile="C16", mask="", preds="", quick=1500, thorough=60000, panic_is_failure=True)]),
+    "C01": dict(theorems=["Props/C01.v", "Props/C01w.v"], parts=[
+        dict(kind="core", profile="C01", mask="out,keys,vals", preds="c01", quick=Q, thorough=T),
+        dict(kind="macro", profile="C01", preds="pure", quick=300, thorough=8000)]),
+    "C03": dict(theorems=["Props/C03.v"], parts=[
+        dict(kind="macro", profile="C03", preds="once,pure", quick=400, thorough=10000)]),
+    "C04": dict(theorems=["Props/C04.v"], parts=[
+        dict(kind="core", profile="C04", mask="keys,qset", preds="c04,wf", quick=Q, thorough=T)]),
+    "C05": dict(theorems=["Props/C05.v"], parts=[
+        dict(kind="core", profile="C05", mask="keys,qset,size", preds="c05,wf", quick=Q, thorough=T)]),
+    "C06": dict(theorems=["Props/C06.v"], parts=[
+        dict(kind="core", profile="C06", mask="out,keys,qset,born,stats", preds="c06", quick=Q, thorough=T)]),
+    "C07": dict(theorems=["Props/C07.v"], parts=[
+        dict(kind="core", profile="C07", mask="keys,queue", preds="c07", quick=Q, thorough=T)]),
+    "C08": dict(theorems=["Props/C08.v"], parts=[
+        dict(kind="core", profile="C08", mask="keys,queue,freq", preds="c08", quick=Q, thorough=T)]),
+    "C09": dict(theorems=["Props/C09.v"], parts=[
+        dict(kind="macro", profile="C09", preds="err", quick=400, thorough=10000)]),
+    "C10": dict(theorems=["Props/C10.v"], parts=[
+        dict(kind="macro", profile="C10", preds="cif", quick=400, thorough=10000)]),
+    "C11": dict(theorems=["Props/C11.v"], parts=[
+        dict(kind="macro", profile="C11", preds="inv", quick=400, thorough=10000)]),
+    "C12": dict(theorems=["Props/C12.v"], parts=[
+        dict(kind="macro", profile="C12", preds="tags,frame", quick=400, thorough=10000)]),
+    "C13": dict(theorems=["Props/C13.v"], parts=[
+        dict(kind="macro", profile="C13", preds="frame", quick=400, thorough=10000)]),
+    "C14": dict(theorems=["Props/C14.v"], parts=[
+        dict(kind="macro", profile="C14", preds="iso,pure", quick=400, thorough=10000)]),
+    "C15": dict(theorems=["Props/C15.v"], parts=[
+        dict(kind="core", profile="C15", mask="out,stats", preds="c15", quick=Q, thorough=T),
+        dict(kind="macro", profile="C15", preds="stats", quick=300, thorough=8000)]),
 }
 
 
@@ -132,48 +147,50 @@ def build_model(run):
     return True
 
 
-def check_theorems(run, vfile):
-    """re-check the property's theorem file from scratch and read Print Assumptions"""
-    path = os.path.join(COQ, vfile)
-    if not os.path.exists(path):
-        run.add_violation("theorem", "theorem file %s is missing" % vfile, vfile, False, "theorem-missing")
-        return
-    src = strip_coq_comments(open(path).read())
-    names = re.findall(r"\bPrint Assumptions\s+([A-Za-z0-9_']+)\s*\.", src)
-    thms = re.findall(r"\b(?:Theorem|Corollary)\s+([A-Za-z0-9_']+)", src)
-    run.cov["obligations"] = len(thms)
-    missing = [t for t in thms if t not in names]
+def check_theorems(run, vfiles):
+    """re-check the property's theorem files from scratch and read Print Assumptions"""
     bad = scan_forbidden()
-    cmd = "cd %s && timeout 600 coqc -Q . CL %s" % (COQ, vfile)
-    run.cov["checker_cmd"] = cmd + "   (after `make` of the whole development; Print Assumptions parsed)"
-    rc, out = sh(cmd, timeout=700)
-    closed = 0
-    axioms = []
-    # split the output on the answers to Print Assumptions, in order
-    chunks = re.split(r"(?m)^(Closed under the global context|Axioms:)", out)
-    i = 1
-    while i < len(chunks):
-        if chunks[i].startswith("Closed"):
-            closed += 1
-        else:
-            axioms.append(chunks[i + 1].strip()[:300])
-        i += 2
-    run.cov["discharged"] = closed if rc == 0 else 0
-    run.cov["theorems"] = thms
-    problems = []
-    if rc != 0:
-        problems.append("coqc failed on %s: %s" % (vfile, out[-600:]))
-    if missing:
-        problems.append("theorems without Print Assumptions: %s" % missing)
-    if axioms:
-        problems.append("axioms reported by Print Assumptions: %s" % axioms)
-    if closed != len(names):
-        problems.append("%d of %d Print Assumptions answers are closed" % (closed, len(names)))
-    if bad:
-        problems.append("forbidden vernacular in the development: %s" % bad[:5])
-    if problems:
-        run.add_violation("theorem", "; ".join(problems), "theorem-file: %s\n%s" % (vfile, "\n".join(problems)),
-                          False, "theorem:" + vfile)
+    cmds = []
+    for vfile in vfiles:
+        path = os.path.join(COQ, vfile)
+        if not os.path.exists(path):
+            run.add_violation("theorem", "theorem file %s is missing" % vfile, vfile, False, "theorem-missing")
+            continue
+        src = strip_coq_comments(open(path).read())
+        names = re.findall(r"\bPrint Assumptions\s+([A-Za-z0-9_']+)\s*\.", src)
+        thms = re.findall(r"\b(?:Theorem|Corollary)\s+([A-Za-z0-9_']+)", src)
+        run.cov["obligations"] += len(thms)
+        run.cov.setdefault("theorems", []).extend(thms)
+        missing = [t for t in thms if t not in names]
+        cmd = "cd %s && timeout 600 coqc -Q . CL %s" % (COQ, vfile)
+        cmds.append(cmd)
+        rc, out = sh(cmd, timeout=700)
+        closed, axioms = 0, []
+        chunks = re.split(r"(?m)^(Closed under the global context|Axioms:)", out)
+        i = 1
+        while i < len(chunks):
+            if chunks[i].startswith("Closed"):
+                closed += 1
+            else:
+                axioms.append(chunks[i + 1].strip()[:300])
+            i += 2
+        if rc == 0:
+            run.cov["discharged"] += min(closed, len(thms))
+        problems = []
+        if rc != 0:
+            problems.append("coqc failed on %s: %s" % (vfile, out[-600:]))
+        if missing:
+            problems.append("theorems without Print Assumptions: %s" % missing)
+        if axioms:
+            problems.append("axioms reported by Print Assumptions: %s" % axioms)
+        if closed != len(names):
+            problems.append("%d of %d Print Assumptions answers are closed" % (closed, len(names)))
+        if bad:
+            problems.append("forbidden vernacular in the development: %s" % bad[:5])
+        if problems:
+            run.add_violation("theorem", "; ".join(problems), "theorem-file: %s\n%s" % (vfile, "\n".join(problems)),
+                              False, "theorem:" + vfile)
+    run.cov["checker_cmd"] = " ; ".join(cmds) + "   (after `make` of the whole development; Print Assumptions parsed)"
 
 
 # ---------------------------------------------------------------------------------------
